@@ -29,6 +29,7 @@ PROPS = {
 
 PROPS["C02"] = {
     "pkg": "c02",
+    "variants": [{"name": "main"}, {"name": "conc", "race": True, "run": "^TestConcurrent$", "shards": {"thorough": 4}}],
     "technique": "differential property-based testing against net/netip (grammar + near-miss generators, exhaustive token enumeration) and twin-validator agreement; native fuzzing in the thorough tier",
     "level_text": ("Differential generated-input search: IsValidIPString / IsValidIPPortString are compared with netip.ParseAddr / ParseAddrPort of the "
                    "same toolchain, and IsValidHostname(Label) with ValidateHostname(Label), on an exhaustive enumeration of all token sequences up to "
@@ -48,6 +49,7 @@ PROPS["C02"] = {
 
 PROPS["C03"] = {
     "pkg": "c03",
+    "variants": [{"name": "main"}, {"name": "conc", "race": True, "run": "^TestConcurrent$", "shards": {"thorough": 4}}],
     "technique": "model-based property testing: generated names (label-class grammar, 63/253 boundary constructors, single-rule breaks, IDN, invalid UTF-8) against an independent byte-level RFC grammar model on top of idna.ToASCII; native fuzzing in the thorough tier",
     "level_text": ("Generated-input search against an independent reference model of the documented grammar: all three validators must accept exactly "
                    "what the model accepts, the inclusion chain hostname => SRV => domain must hold on the real functions, and every rejection must be "
@@ -65,6 +67,7 @@ PROPS["C03"] = {
 
 PROPS["C04"] = {
     "pkg": "c04",
+    "variants": [{"name": "main"}, {"name": "conc", "race": True, "run": "^TestConcurrent$", "shards": {"thorough": 4}}],
     "technique": "round-trip and independent-encoder property testing over generated addresses (all positions swept), plus accepted-language validity predicate over generated ARPA-shaped texts; native fuzzing in the thorough tier",
     "level_text": ("Generated-input search with two oracles: (1) IPToReversedAddr must equal an independent RFC 1035/3596 encoder byte for byte and "
                    "IPFromReversedAddr must map every re-spelling (random upper-casing, optional trailing dot) back to the address, for generated 4-byte, "
@@ -85,6 +88,7 @@ PROPS["C04"] = {
 
 PROPS["C05"] = {
     "pkg": "c05",
+    "variants": [{"name": "main"}, {"name": "conc", "race": True, "run": "^TestConcurrent$", "shards": {"thorough": 4}}],
     "technique": "differential property testing against an independent prefix decoder / longest-suffix extractor: exhaustive short label sequences, generated encodings with mutations and embeddings, long nibble runs; native fuzzing in the thorough tier",
     "level_text": ("Generated-input search against an independent reference (internal/model/arpa.go): PrefixFromReversedAddr must succeed exactly when the "
                    "reference decoder does and return the same masked prefix; ExtractReversedAddr must succeed exactly when the name is domain-valid under "
@@ -122,6 +126,7 @@ PROPS["C06"] = {
 
 PROPS["C07"] = {
     "pkg": "c07",
+    "variants": [{"name": "main"}, {"name": "conc", "race": True, "run": "^TestConcurrent$", "shards": {"thorough": 4}}],
     "technique": "model-based property testing of Record.UnmarshalText against a field-grammar reference parser (netip.ParseAddr + the C03 name model), error classification and MarshalText round trip; native fuzzing in the thorough tier",
     "level_text": ("Generated-input search against a reference parser written from the statement: cut at '#', split on space/tab runs, classify as "
                    "ErrEmptyLine / ErrNoHosts / netip's address error / *AddrError for the first bad name with exactly the earlier names retained / accepted "
@@ -216,6 +221,7 @@ PROPS["C11"] = {
 
 PROPS["C12"] = {
     "pkg": "c12",
+    "variants": [{"name": "main"}, {"name": "conc", "race": True, "run": "^TestConcurrent$", "shards": {"thorough": 4}}],
     "technique": "property-based testing with byte-equality, differential (the net.Addr's own AddrPort, net.IPNet.Contains on probe addresses) and sortedness+permutation oracles over generated net.IP / IPMask / net.Addr / []netip.Addr values incl. malformed ones",
     "level_text": ("Generated-input search: IPToAddr / IPToAddrNoMapped / NetAddrToAddrPort must return the same bytes, zone and port in the requested (unmapped) "
                    "family and reject non-addresses; a successful IPNetToPrefix(NoMapped) implies a non-empty contiguous mask, an unchanged address and a prefix "
@@ -237,6 +243,7 @@ PROPS["C12"] = {
 
 PROPS["C13"] = {
     "pkg": "c13",
+    "variants": [{"name": "main"}, {"name": "conc", "race": True, "run": "^TestConcurrent$", "shards": {"thorough": 4}}],
     "technique": "differential property testing against a brute-force EqualFold window search (exhaustive over a 12-rune alphabet with 3-member fold orbits, plus fold-orbit-derived random pairs) and the literal SplitTrimmed definition; native fuzzing in the thorough tier",
     "level_text": ("Generated-input search against the statement's own definitions: ContainsFold must equal a brute-force search over all rune-boundary windows of the "
                    "needle's byte length with strings.EqualFold (and strings.Contains(ToLower, ToLower) for ASCII operands); SplitTrimmed must equal the non-empty "
@@ -255,6 +262,7 @@ PROPS["C13"] = {
 
 PROPS["C14"] = {
     "pkg": "c14",
+    "variants": [{"name": "main"}, {"name": "conc", "race": True, "run": "^TestConcurrent$", "shards": {"thorough": 4}}],
     "technique": "round-trip and differential property testing: int64 boundary durations against a string-level reference, HostPort and URL text/JSON round trips over grammar-generated inputs, Prefix text against net/netip; native fuzzing in the thorough tier",
     "level_text": ("Generated-input search with round-trip and differential oracles: Duration text/JSON round trip and String() against a string-level reference on "
                    "boundary and random int64 values (plus a sweep of every whole minute in +-300 h); HostPort round trip for arbitrary bracket-free hosts; "
@@ -295,6 +303,7 @@ PROPS["C15"] = {
 
 PROPS["C16"] = {
     "pkg": "c16",
+    "variants": [{"name": "main"}, {"name": "conc", "race": True, "run": "^TestConcurrent$", "shards": {"thorough": 4}}],
     "technique": "two-run non-interference property testing: the same URL with two independently generated userinfos must redact to identical text; component-equality, input-snapshot and error-shape oracles",
     "level_text": ("Generated-input search with a non-interference oracle: for URLs (parsed from the URL grammar or built field by field incl. Opaque, RawPath, OmitHost, "
                    "ForceQuery, RawFragment, with query/fragment optionally echoing the secret) and two independent userinfos, RedactUserinfo's results must have "
